@@ -153,7 +153,8 @@ impl PlugCommand {
         let socket = graph.register_package(socket)?;
 
         // Collect the plugs by their names
-        let mut plugs_by_name = std::collections::HashMap::<_, Vec<_>>::new();
+        // Keep the order in which the plugs were given on the command line
+        let mut plugs_by_name = indexmap::IndexMap::<_, Vec<_>>::new();
         for plug in self.plugs.iter() {
             let name = match plug {
                 #[cfg(feature = "registry")]
